@@ -110,6 +110,15 @@ func rtScenario(name string) string {
 				} else {
 					errs <- nil
 				}
+			case "busy-once":
+				// a one-shot to itself that fires while this very handler is still busy
+				t0 = time.Now()
+				errs <- c.Scheduler().Once(c.Ref(), rtUnit, &rtTick{55}, vivid.WithSchedulerReference("b"))
+				time.Sleep(4 * rtUnit)
+			case "note-a", "note-b":
+				mu.Lock()
+				vals = append(vals, -int(m[len(m)-1]-'a')-1)
+				mu.Unlock()
 			case "boom":
 				panic("rt scripted failure")
 			}
@@ -222,6 +231,20 @@ func rtScenario(name string) string {
 		if d2 := lg.deadLetters(); d2 != d {
 			return fmt.Sprintf("CLEARED: %d dead letter(s) from jobs that should have been cleared (%s)", d2-d, name)
 		}
+	case "through-mailbox":
+		// delivery goes through the receiver's mailbox like any other message: a one-shot that fires while the actor
+		// is busy queues up behind the user messages that were already waiting
+		if err := sendWait("busy-once"); err != nil {
+			return "Once returned " + err.Error()
+		}
+		sys.Tell(ref, "note-a") // both are in the mailbox well before the firing instant (1 unit)
+		sys.Tell(ref, "note-b")
+		wait(9)
+		mu.Lock()
+		defer mu.Unlock()
+		if fmt.Sprint(vals) != "[-1 -2 55]" {
+			return fmt.Sprintf("THROUGH-MAILBOX: two user messages were queued before a one-shot fired (the actor was busy all along); they were processed in the order %v (-1, -2: the user messages, 55: the scheduled message), expected [-1 -2 55]", vals)
+		}
 	case "cancel-unknown":
 		err := sendWait("cancel-unknown")
 		if err == nil || !strings.Contains(err.Error(), vivid.ErrorNotFound.GetMessage()) {
@@ -266,7 +289,7 @@ func (e *schedrtEngine) Generate(c *Ctx) {
 		reps = 5
 	}
 	for r := 0; r < reps; r++ {
-		for _, sc := range []string{"once", "loop-cancel", "once-cancel", "owner-killed", "owner-restarted", "cancel-unknown", "cron-invalid", "fired-then-clear", "fired-then-killed", "fired-then-restarted"} {
+		for _, sc := range []string{"once", "loop-cancel", "once-cancel", "owner-killed", "owner-restarted", "cancel-unknown", "cron-invalid", "fired-then-clear", "fired-then-killed", "fired-then-restarted", "through-mailbox"} {
 			c.Case("rt " + sc)
 			c.R.Nontrivial()
 			c.R.Hit("rt:" + sc)
